@@ -22,6 +22,7 @@ SETITEM_TRANSFERS = False  # /repo since 6df133a: no id transfer to an object ha
 # same meaning as the constants of coq/C13/Model.v
 DELATTR_GUARDED = True    # Model.v: delattr_guarded
 TUPLES_FROZEN = True      # Model.v: tuples_frozen
+TRESTORE = True            # /repo since 916e580: restoring state re-applies the owner's flag to its tuple priors (Model.v: tuple_flag_restored)
 CACHE_COUNTS = True       # Model.v: cache_counts_modifications (needs the other two)
 DERIVE_THAWS = False       # /repo since b8214a7: prior passing unfreezes its copy, not self (Model.v: derive_thaws)
 
@@ -315,6 +316,13 @@ class Mirror:
                 if v[0] == "r" and self.objs[v[1]].kind == "tuple":
                     self.objs[v[1]].frozen = flag
 
+    def refuses_label(self, v):
+        """Model.__setattr__ labels the assigned value: a frozen Model / Collection (and, since b49160e, TuplePrior) refuses"""
+        if v[0] != "r" or v[1] >= len(self.objs):
+            return False
+        ob = self.objs[v[1]]
+        return ob.frozen and (ob.kind != "tuple" or TUPLES_FROZEN)
+
     def guarded(self, ob, deleting=False):
         """does an assert_not_frozen wrapper sit in front of this setattr / delattr?"""
         if ob.kind == "tuple":
@@ -362,6 +370,29 @@ class Mirror:
         idx = memo[o]
         for k, v in src.attrs:
             new.attrs.append([k, ["r", self.copy(v[1], memo)] if v[0] == "r" else list(v)])
+        self.retuple(idx)
+        return idx
+
+    def retuple(self, idx):
+        """AbstractModel.__setstate__: the owner's flag is re-applied to its tuple priors"""
+        ob = self.objs[idx]
+        if TUPLES_FROZEN and TRESTORE and ob.kind != "tuple":
+            for _, v in ob.attrs:
+                if v[0] == "r" and self.objs[v[1]].kind == "tuple":
+                    self.objs[v[1]].frozen = ob.frozen
+
+    def dbcopy(self, o, depth=0):
+        """database form: no memo (shared components are duplicated), no frozen flag"""
+        if depth > 40:
+            raise Mirror.Raise("RecursionError")
+        src = self.objs[o]
+        # item_number is not stored in the database form: it is rebuilt as the number of positional children (be6bafa)
+        nitems = sum(1 for k, _ in src.attrs if k.isdigit()) if src.kind == "coll" else src.nitems
+        new = MObj(src.kind, src.cls, [], nitems, False)
+        self.objs.append(new)
+        idx = len(self.objs) - 1
+        for k, v in src.attrs:
+            new.attrs.append([k, ["r", self.dbcopy(v[1], depth + 1)] if v[0] == "r" else list(v)])
         return idx
 
     def apply(self, op):
@@ -369,7 +400,7 @@ class Mirror:
         k = op[0]
         if k == "new":
             _, kind, cls, attrs, nitems = op
-            if kind == "model" and any(self.is_pm(v) and self.objs[v[1]].frozen for _, v in attrs):
+            if kind == "model" and any(self.refuses_label(v) for _, v in attrs):
                 return {"exc": "AssertionError"}, []
             self.objs.append(MObj(kind, cls, attrs, nitems))
             return {"ok": None}, []
@@ -397,6 +428,14 @@ class Mirror:
             self.copy_base = len(self.objs)
             self.copy(o)
             return {"ok": None}, []
+        if k == "restore":
+            self.copy_base = len(self.objs)
+            if op[2] == "shallow":
+                self.objs.append(MObj(ob.kind, ob.cls, [list(a) for a in ob.attrs], ob.nitems, ob.frozen))
+                self.retuple(len(self.objs) - 1)
+            else:
+                self.dbcopy(o)
+            return {"ok": None}, []
         setitem_labels = []
         if k == "setitem":                       # Collection.__setitem__; reference semantics: plain assignment
             old = ob.get(str(op[2]))
@@ -411,7 +450,7 @@ class Mirror:
             if ob.frozen and self.guarded(ob):
                 return {"exc": "AssertionError"}, ["rejected"]
             v = op[3] if k == "set" else op[2]
-            if k == "set" and ob.kind == "model" and self.is_pm(v) and self.objs[v[1]].frozen:
+            if k == "set" and ob.kind == "model" and self.refuses_label(v):
                 return {"exc": "AssertionError"}, []
             t = self.set_target(o, op[2]) if k == "set" else o
             if t != o and self.objs[t].frozen and self.guarded(self.objs[t]):
@@ -629,7 +668,19 @@ class Gen:
             name = r.choice(ob.attrs)[0] if r.random() < 0.9 else "zz"
             return ["del", o, name]
         if x < 0.90:
-            return (["copy", r.choice(pms)] + (["pickle"] if r.random() < 0.4 else [])) if len(m.objs) < 40 else None
+            if len(m.objs) >= 40:
+                return None
+            # prefer owners of tuple priors: their frozen flag must follow the owner through every restore
+            owners = [i for i in pms if any(m.objs[t].kind == "tuple" for t in m.reach(i))]
+            o = r.choice(owners) if owners and r.random() < 0.6 else r.choice(pms)
+            y = r.random()
+            if y < 0.35:
+                return ["copy", o]
+            if y < 0.6:
+                return ["copy", o, "pickle"]
+            if y < 0.8 or m.loops(o):
+                return ["restore", o, "shallow"]
+            return ["restore", o, "database"]
         if x < 0.93:
             o = r.choice(pms)
             if (not self.dirty and m.derive_would_thaw(o)) or m.loops(o):
@@ -740,6 +791,18 @@ def scenario_cases():
     out.append(base([leafm(0, 1), ["new", "coll", None, [["m", ["r", 0]], ["k", P(2)]], 0], ["freeze", 1], ["query", 1, ["count"]],
                      ["derive", 1], ["set", 0, "e", P(3)], ["query", 1, ["count"]], ["query", 1, ["unit", [0, 1, 2]]],
                      ["derive", 0], ["unfreeze", 1], ["derive", 1], ["query", 1, ["count"]]]))
+    # restoring a model with tuple priors: the tuple's flag follows its owner (916e580)
+    tm = [["new", "tuple", None, [["pos_0", P(0)], ["pos_1", ["c", 2]]], 0], ["new", "model", 2, [["pos", ["r", 0]], ["w", P(1)]], 0],
+          ["new", "coll", None, [["m", ["r", 1]], ["k", P(2)]], 0]]
+    out.append(base(tm + [["freeze", 2], ["query", 2, ["count"]], ["copy", 2], ["copy", 2, "pickle"], ["restore", 2, "shallow"],
+                          ["restore", 2, "database"], ["query", 10, ["count"]], ["set", 11, "pos_1", P(3)], ["set", 12, "pos_1", P(3)],
+                          ["query", 10, ["count"]], ["query", 10, ["instance", [1, 2, 3, 4]]], ["set", 5, "pos_1", P(3)], ["unfreeze", 3],
+                          ["set", 5, "pos_1", P(3)], ["query", 3, ["count"]], ["freeze", 10], ["set", 12, "pos_0", ["c", 1]],
+                          ["restore", 10, "database"], ["query", 13, ["info"]], ["unfreeze", 2], ["restore", 1, "shallow"],
+                          ["freeze", 1], ["set", 0, "pos_1", P(4)], ["query", 16, ["count"]], ["query", 6, ["count"]],
+                          ["set", 8, "pos_0", ["c", 1]], ["unfreeze", 6], ["set", 8, "pos_0", ["c", 1]], ["query", 6, ["paths"]]]))
+    out.append(base(tm + [["restore", 2, "database"], ["copy", 2], ["restore", 1, "shallow"], ["set", 0, "pos_1", P(3)],
+                          ["query", 2, ["count"]], ["query", 3, ["count"]], ["query", 6, ["count"]], ["query", 9, ["count"]]]))
     # self-reference: the recursion guard truncates the walk at the loop
     out.append(base([["new", "coll", None, [["m", P(0)]], 0], ["set", 0, "q", ["r", 0]], ["set", 0, "n", P(1)], ["query", 0, ["count"]],
                      ["query", 0, ["paths"]], ["query", 0, ["info"]], ["freeze", 0], ["query", 0, ["count"]], ["copy", 0],
@@ -856,7 +919,7 @@ def oracle(case, res, limit=6):
                 fail("constructed object has attributes %s, expected %s" % (r.get("attrs"), m.objs[-1].attrs),
                      ["setitem-existing-key"] if any(v[0] == "p" and v[1] in m.rewritten for _, v in m.objs[-1].attrs) else [], i)
                 break
-            if k == "copy":
+            if k in ("copy", "restore"):
                 new = r.get("new", [])
                 mine = m.objs[len(m.objs) - len(new):]
                 if len(new) != len(m.objs) - m.copy_base:
@@ -872,10 +935,14 @@ def oracle(case, res, limit=6):
                         stop = fail("copy carries a cache", [], i)
                         break
                     if a["frozen"] != b.frozen:
-                        stop = fail("copy has a different frozen flag",
+                        stop = fail("restored object %s: frozen flag %s, the reference (tuple prior = its owner, database form unfrozen) says %s"
+                                    % (b.kind, a["frozen"], b.frozen),
                                     ["delattr-on-frozen"] if m.reach(op[1]) & m.uncertain else [], i)
                         break
                 if stop:
+                    break
+                if r.get("flags") is not None and not m.uncertain and r["flags"] != [ob.frozen for ob in m.objs]:
+                    fail("frozen flags after %s differ from the reference: %s vs %s" % (k, r["flags"], [ob.frozen for ob in m.objs]), [], i)
                     break
         seen.update(l for l in labels if l != "rejected")
     else:
@@ -906,7 +973,7 @@ def nontrivial(case):
         k = op[0]
         if k == "freeze":
             froze = True
-        elif froze and k in ("set", "setitem", "append", "del", "unfreeze", "copy", "failwalk", "derive"):
+        elif froze and k in ("set", "setitem", "append", "del", "unfreeze", "copy", "restore", "failwalk", "derive"):
             changed = True
         elif k == "query" and froze and changed:
             return True
@@ -1014,6 +1081,8 @@ def cop(op):
         return "ODel %d %s" % (op[1], cs(op[2]))
     if k == "copy":
         return "OCopy %d" % op[1]
+    if k == "restore":
+        return "ORestore %d %s" % (op[1], "RShallow" if op[2] == "shallow" else "RDatabase")
     if k == "failwalk":
         return "OFailWalk %d" % op[1]
     raise ValueError(op)
@@ -1092,6 +1161,8 @@ def run(ctx):
             ctx.hist("op", op[0] if op[0] != "query" else "query:" + op[2][0])
         ctx.oracle["cases"] += 1
         if "driver_error" in r:
+            if c.get("origin") == "corpus":
+                regress.append("%s: driver error" % c.get("name"))
             ctx.oracle["failures"] += 1
             ctx.failure("oracle", "driver error: " + r["driver_error"][-400:], key)
             continue
@@ -1119,7 +1190,7 @@ def run(ctx):
             bad_here = [m for m in regress if m.split(":")[0] in pinned[sig]]
             ctx.obligation("regression:" + sig, "regression", not bad_here,
                            "; ".join(bad_here) if bad_here else "pinned history %s answers like the reference" % ", ".join(pinned[sig]))
-        ctx.obligation("regression:all-six-pinned", "regression", len(pinned) >= 6, "%d pinned former findings" % len(pinned))
+        ctx.obligation("regression:all-seven-pinned", "regression", len(pinned) >= 7, "%d pinned former findings" % len(pinned))
     if os.path.exists(os.path.join(common.COQ, "C13", "Model.vo")):
         bad, log = ctx.eval_cases(HEADER, "case", "check_case", coq_cases, shard=40 if ctx.tier == "quick" else 120)
         for b in (bad or [])[:5]:
